@@ -345,6 +345,29 @@ def check(prog, rep, tier):
             okbin = False
     if okbin and nb:
         rep.ok("C08.cc-bin-identity", "CountingCuckooBin.__contains__: fingerprint == value")
+    # ... and its count moves by exactly one per increment / decrement (no wrap-around: the array('I') cell refuses what does not fit)
+    cnt = ("sub", binf, C(1), 0)
+    for mname, sign in (("increment", "+"), ("decrement", "-")):
+        mf = prog.method("CountingCuckooBin", mname)
+        okm, nm = True, 0
+        for p in paths(prog, "CountingCuckooBin", mf, inline="deep"):
+            if p.exit[0] != "return":
+                continue
+            nm += 1
+            st_ = [e for e in p.events if e.kind == "setelem" and strip_epochs(e.cont) == binf]
+            want_ = canon(("bin", sign, cnt, C(1)))
+            if len(st_) != 1 or strip_epochs(st_[0].index) != C(1) or canon(strip_epochs(st_[0].value)) != want_:
+                got_ = nshow(st_[0].value) if st_ else "nothing"
+                rep.bad("C08.cc-bin-identity", f"CountingCuckooBin.{mname}", f"stores {got_}",
+                        f"{mname} stores {got_} as the new count, expected count {sign} 1: a masked or clamped count wraps to 0 (a bin with count zero) or stops counting", mf.where())
+                okm = False
+                break
+            if canon(strip_epochs(p.exit[1])) not in (want_, canon(cnt)):
+                rep.bad("C08.cc-bin-identity", f"CountingCuckooBin.{mname}", f"returns {nshow(p.exit[1])}", f"{mname} does not return the new count", mf.where())
+                okm = False
+                break
+        if okm and nm:
+            rep.ok("C08.cc-bin-identity", f"CountingCuckooBin.{mname}: count {sign} 1, returned")
     # check: the count of the bin that holds the key's fingerprint, 0 when absent
     ck = prog.method(CC, "check")
     okc, nck = True, 0
@@ -450,6 +473,7 @@ MUTANTS = [
     Mutant("remove_alt subtracts num_els regardless of the minimum", _CB, replace_stmt("CountingBloomFilter", "remove_alt", "to_remove = ", "to_remove = num_els"), rule="C08.cbf-symmetry"),
     Mutant("check_alt mod bloom_length - 1", _CB, replace_expr("CountingBloomFilter", "check_alt", "x % self.number_bits", "x % (self.number_bits - 1)"), rule="C08.cbf-address"),
     Mutant("_load_init: bloom_length = n_bits + 1", _CB, replace_stmt("CountingBloomFilter", "_load_init", "self._bloom_length = n_bits", "self._bloom_length = n_bits + 1"), rule="C08.cbf-length"),
+    Mutant("bin increment wraps at 2**32", _CC, replace_stmt("CountingCuckooBin", "increment", "self.__bin[1] += 1", "self.__bin[1] = (self.__bin[1] + 1) & 0xFFFFFFFF"), rule="C08.cc-bin-identity"),
     Mutant("bin membership looks at both cells", _CC, replace_expr("CountingCuckooBin", "__contains__", "self.__bin[0] == val", "val in self.__bin"), rule="C08.cc-bin-identity"),
     Mutant("bin membership through the finger property (same meaning)", _CC, replace_expr("CountingCuckooBin", "__contains__", "self.__bin[0] == val", "self.finger == val"), expect="silent"),
     Mutant("check reports count + 1", _CC, replace_stmt("CountingCuckooFilter", "check", "val = bucket.count", "val = bucket.count + 1"), rule="C08.cc-check"),
